@@ -361,18 +361,28 @@ impl TryFrom<&syn::Type> for RustType {
                     }
                     _ => Vec::default(),
                 };
+                // A container written without (all of) its type arguments, e.g. a bare `Vec`.
+                let missing_argument = || RustTypeParseError::UnsupportedType(vec![id.clone()]);
                 match id.as_str() {
                     "Vec" => Self::Special(SpecialRustType::Vec(
-                        parameters.into_iter().next().unwrap().into(),
+                        parameters
+                            .into_iter()
+                            .next()
+                            .ok_or_else(missing_argument)?
+                            .into(),
                     )),
                     "Option" => Self::Special(SpecialRustType::Option(
-                        parameters.into_iter().next().unwrap().into(),
+                        parameters
+                            .into_iter()
+                            .next()
+                            .ok_or_else(missing_argument)?
+                            .into(),
                     )),
                     "HashMap" => {
                         let mut params = parameters.into_iter();
                         Self::Special(SpecialRustType::HashMap(
-                            params.next().unwrap().into(),
-                            params.next().unwrap().into(),
+                            params.next().ok_or_else(missing_argument)?.into(),
+                            params.next().ok_or_else(missing_argument)?.into(),
                         ))
                     }
                     "OffsetDateTime" => Self::Special(SpecialRustType::DateTime),
@@ -380,7 +390,9 @@ impl TryFrom<&syn::Type> for RustType {
                     // These smart pointers can be treated as their inner type since serde can handle it
                     // See impls of serde::Deserialize
                     "Box" | "Weak" | "Arc" | "Rc" | "Cow" | "ArcWeak" | "RcWeak" | "Cell"
-                    | "Mutex" | "RefCell" | "RwLock" => parameters.into_iter().next().unwrap(),
+                    | "Mutex" | "RefCell" | "RwLock" => {
+                        parameters.into_iter().next().ok_or_else(missing_argument)?
+                    }
                     "bool" => Self::Special(SpecialRustType::Bool),
                     "char" => Self::Special(SpecialRustType::Char),
                     "u8" => Self::Special(SpecialRustType::U8),
